@@ -66,6 +66,10 @@ def ops : List (String × Handler) := [
       let r := setFeatureProperties (← jStr (← arg j "chr")) (← jInt (← arg j "d")) (← jIvList (← arg j "features"))
         (← jList jIsoform (← arg j "isoforms")) (← jNat (← arg j "next_id"))
       pure (Json.mkObj [("props", ofList ofFeatureInfo r), ("strs", ofList (fun f => ofStr f.toStr) r)])),
+  ("effective_delta", fun j => do
+      match effectiveDelta (← jStr (← arg j "strategy")) (← jOpt jInt (← arg j "delta")) with
+      | none => pure (jErr "error")
+      | some d => pure (ofInt d)),
   ("count_dump", fun j => do
       let evs ← jEvents j
       let r := runAndDump (← jStr (← arg j "key")) (← jBool (← arg j "ignore_groups")) (← jStr (← arg j "default_group")) evs
